@@ -234,7 +234,7 @@ def gen_augment(rng, k):
     # rebuilt the cube without the threshold)
     return survey_case("augment", k, sv, n_filters=rng.randint(1, 2),
                        meas={"measures": ["count"], "numvar": None, "valid_counts": False},
-                       mask_size=rng.choice([0, 2, 3, 6]))
+                       mask_size=rng.choice([0, 2, 3, 6]), row_transforms=(k % 3 != 1))
 
 
 def witness_augment_case():
@@ -263,8 +263,28 @@ def lone(resp, cube_idx=None, mask_size=0, transforms=None):
                      cube_idx=cube_idx)
 
 
-def cube_set(resps, mask_size=0):
-    return impl.CubeSet([copy.deepcopy(r) for r in resps], [{} for _ in resps], POP, mask_size)
+def cube_set(resps, mask_size=0, transforms=None):
+    return impl.CubeSet([copy.deepcopy(r) for r in resps],
+                        [copy.deepcopy(transforms) if transforms else {} for _ in resps], POP, mask_size)
+
+
+def augment_row_transforms(case, summary):
+    """display transforms on the rows of an augment case (after seeded changes C06-8 / C09-8: the cube that
+    augment_response rebuilds lost the analysis' transforms): explicit order = the valid element ids
+    reversed, the first listed element hidden when there are more than two, prune in one case out of two"""
+    if not case.get("row_transforms"):
+        return None
+    els = summary["result"]["dimensions"][0]["type"].get("elements") or \
+        summary["result"]["dimensions"][0]["type"].get("categories") or []
+    ids = [e["id"] for e in els if not e.get("missing")]
+    if len(ids) < 2:
+        return None
+    d = {"order": {"type": "explicit", "element_ids": list(reversed(ids))}}
+    if len(ids) > 2:
+        d["elements"] = {str(ids[-1]): {"hide": True}}
+    if int(case.get("k", 0)) % 2:
+        d["prune"] = True
+    return {"rows_dimension": d}
 
 
 def fail(what, **kw):
@@ -532,17 +552,19 @@ def augment_responses(case):
 def check_augment(case, stats=None):
     summary, fulls, filts = augment_responses(case)
     ms = case.get("mask_size", 0)
-    res = impl.guarded(lambda: cube_set([summary] + filts, ms).partition_sets)
+    tf = augment_row_transforms(case, summary)
+    res = impl.guarded(lambda: cube_set([summary] + filts, ms, tf).partition_sets)
     if res[0] != "ok":
         return [fail("exception", where="CubeSet.partition_sets", got=res[1:])]
     psets = res[1]
     fails = []
     if len(psets) != 1 or len(psets[0]) != 1 + len(filts):
         return [fail("n_partition_sets", got=[len(x) for x in psets], expected=[1 + len(filts)])]
-    fs = compare_parts(psets[0][0], lone(summary, cube_idx=0, mask_size=ms).partitions[0], (), "summary cube")
+    fs = compare_parts(psets[0][0], lone(summary, cube_idx=0, mask_size=ms, transforms=tf).partitions[0], (),
+                       "summary cube")
     fails.extend(fs)
     for j, full in enumerate(fulls):
-        q = lone(full, cube_idx=j + 1, mask_size=ms).partitions[0]
+        q = lone(full, cube_idx=j + 1, mask_size=ms, transforms=tf).partitions[0]
         fs = compare_parts(psets[0][j + 1], q, (),
                            "augmented filter cube %d vs full-shape cube of the filtered survey" % (j + 1))
         for f in fs:
